@@ -608,3 +608,37 @@ V("c13-ids-from-filenames", "C13", "M", IOO, "attrs=volume_directory.attrs | att
 V("c20-nan-tail-trimmed", "C20", "M", TRF, "    return list(values), metadata", "    values = list(values)\n    while len(values) > 1 and values[-1] != values[-1]:\n        values.pop()\n\n    return values, metadata", "C20-P7")
 V("c08-zero-stamp-none", ["C08", "C07"], "M", DTY, '        base = datetime.datetime(obj["year"], 1, 1)\n', '        if obj["year"] == 0 and obj["day_of_year"] == 0:\n            return None\n        base = datetime.datetime(obj["year"], 1, 1)\n', "NaT")
 V("c01-eq-adjust-alias", ["C01", "C06"], "E", SIO, "    record.data.start += offset\n    record.data.stop += offset\n", "    byte_range = record.data\n    byte_range.start += offset\n    byte_range.stop += offset\n")
+
+# ---------------------------------------------------------------- round 9
+V("c19-retry-inside-lock", "C19", "M", XRP, "        with self.lock:\n            return self.array[key]", '''        with self.lock:
+            try:
+                return self.array[key]
+            except ConnectionError:
+                return self._raw_indexing_method(key)''', "recursive")
+V("c19-eq-retry-outside-lock", "C19", "E", XRP, "        with self.lock:\n            return self.array[key]", '''        try:
+            with self.lock:
+                return self.array[key]
+        except ConnectionError:
+            with self.lock:
+                return self.array[key]''')
+V("c18-truncated-header-patched", "C18", "M", SIO, "    return to_dict(header), to_dict(metadata)", '''    header = to_dict(header)
+    if len(metadata) < n_records:
+        header = header | {"number_of_sar_data_records": len(metadata)}
+
+    return header, to_dict(metadata)''', "header")
+V("c15-message-index-error", "C15", "M", DCD, '    if match is None:\n        raise ValueError(f"invalid scene id: {scene_id}")', '    if match is None:\n        raise ValueError(f"invalid scene id: {scene_id} (starts with {scene_id[0]!r})")', "IndexError")
+V("c09-eq-handler-in-helper", ["C09", "C07"], "E", SII, '''        try:
+            return caching.read_cache(mapper, path, records_per_chunk=records_per_chunk)
+        except CachingError:
+            pass
+''', '''        cached = _cached(mapper, path, records_per_chunk)
+        if cached is not None:
+            return cached
+''', more=[(SII, "def open_image(", '''def _cached(mapper, path, records_per_chunk):
+    try:
+        return caching.read_cache(mapper, path, records_per_chunk=records_per_chunk)
+    except CachingError:
+        return None
+
+
+def open_image(''')])
